@@ -4,6 +4,7 @@ import MpVerif.C03.LemmasGen
 import MpVerif.C03.LemmasIntended
 import MpVerif.C03.LemmasIntText
 import MpVerif.C03.LemmasCongr
+import MpVerif.C03.LemmasBF
 /-!
 # C03 — NL writer output is read back as the same model (text = binary)
 
@@ -71,6 +72,19 @@ theorem C03_header_roundtrip (cd : Codec) (o : Opts) (h : Hdr) (rest : List Tok)
 theorem C03_roundtrip (cd : Codec) (m : Model) (o : Opts) (hwf : wellFormed m o = true) :
     readTokens cd (writeNL m o) = .ok (events cd m o) :=
   roundtrip cd m o hwf
+
+/-- **Round trip with the reader flag `READ_BOUNDS_FIRST`** (the two passes of `NLReader::Read()`: a first pass that forwards only
+    `OnVarBounds` and stops after the `b` segment, a second pass that jumps over it): for every well-formed model and every
+    writer option the handler is told the header, then the variable bounds, then everything else in file order. -/
+theorem C03_roundtrip_bounds_first (cd : Codec) (m : Model) (o : Opts) (hwf : wellFormed m o = true) :
+    readTokensBF cd (writeNL m o) = .ok (eventsBF cd m o) :=
+  roundtrip_bounds_first cd m o hwf
+
+/-- with and without the flag the handler is told the same things; only the position of the variable bounds differs -/
+theorem C03_bounds_first_same_notifications (cd : Codec) (m : Model) (o : Opts) :
+    events cd m o = Ev.header (readBackHdr cd (effHdr m) o) :: (evPre cd m o ++ (evVarBnds cd 0 m.vb ++ (evPost cd m o ++ [Ev.endInput]))) ∧
+    eventsBF cd m o = Ev.header (readBackHdr cd (effHdr m) o) :: (evVarBnds cd 0 m.vb ++ (evPre cd m o ++ (evPost cd m o ++ [Ev.endInput]))) := by
+  exact ⟨by rw [events, eventsBF_perm], rfl⟩
 
 /-! ## `events` is what the property demands: `intended` (ModelIntended.lean), written from the property text -/
 
